@@ -161,8 +161,8 @@ def step (s : S) (ws0 : List String) : S × String :=
         match handle s h, tableIdx tn with
         | some (ts, _), some ti =>
           let t := getT ts ti
-          let pend := t.init.getD []
-          (s, s!"{pend.isEmpty} {if pend.isEmpty then "." else ",".intercalate pend}")
+          let pend := tblPending t
+          (s, s!"{tblInitialized t} {if pend.isEmpty then "." else ",".intercalate pend}")
         | _, _ => (s, "bad-op")
       | "next", [c, h, k] =>
         match c.toNat?, handle s h, parseInt k with
@@ -206,9 +206,7 @@ def step (s : S) (ws0 : List String) : S × String :=
         | some (ti, name), some es =>
           let t := getT es ti
           if !t.locked then (s, "panic") else
-          match t.init with
-          | some pend => (setW s ti { t with init := some (pend.filter (· ≠ name)) }, "ok")
-          | none => (s, "ok")
+          (setW s ti (tblMarkDone t name), "ok")
         | _, _ => (s, "bad-op")
       | _, _ => (s, "bad-op")
     | some ti =>
@@ -279,7 +277,7 @@ def step (s : S) (ws0 : List String) : S × String :=
         | some es, [name] =>
           let t := getT es ti
           if !t.locked then (s, "panic") else
-          let s := setW s ti { t with init := some ((t.init.getD []) ++ [name]) }
+          let s := setW s ti (tblRegister t name)
           ({ s with dones := s.dones.push (ti, name) }, s!"d{s.dones.size}")
         | _, _ => (s, "bad-op")
       | _ => (s, "bad-op")
